@@ -38,7 +38,11 @@ pub fn new_qs(path: Option<&Path>, pool: u32, level: DomainVersion, init_at: Dur
         let schema_txn = schema_outer.write();
         schema_txn.reload_idxmeta()
     };
-    let cfg = BackendConfig::new(path, pool, FsType::Generic, Some(2048));
+    // No path = a true in-memory SQLite database (":memory:"), so that a fork()ed copy of the
+    // process shares nothing with its parent (kanidm's own empty-path mode is a SQLite *temporary
+    // file*, whose descriptor a forked child would share).
+    let mem = Path::new(":memory:");
+    let cfg = BackendConfig::new(Some(path.unwrap_or(mem)), if path.is_some() { pool } else { 1 }, FsType::Generic, Some(2048));
     let be = Backend::new(cfg, idxmeta, false)?;
     let qs = QueryServer::new(be, schema_outer, "example.com".to_string(), Duration::ZERO)?;
     rt.block_on(qs.initialise_helper(init_at, level))?;
